@@ -159,6 +159,7 @@ class Kernel:
         self.gates: dict[tuple[int, int], Any] = {}
         self.calls: dict[tuple[int, int], int] = {}
         self.tdlog: list[str] = []
+        self.mid: dict[int, tuple[int, Any]] = {}       # context -> (callback during which its scope is cancelled, scope)
         self.tg: Any = None
         self.opidx = -1
         self.pair_fns: dict[int, Any] = {}
@@ -234,6 +235,8 @@ class Kernel:
                 kern.tdlog.append("body [" + ", ".join(outs) + "]")
             for r in spec["regs"]:
                 ctx.add_teardown_callback(kern.make_cb(r, cid), r["pass"])
+
+        def tail(args: tuple[Any, ...]) -> None:
             if spec.get("reraise") and spec["pass"] and args:
                 # raises the very object it was handed (the exception that ended the block), if any
                 kern.tdlog.append(f"td- {spec['id']} {'ok' if args[0] is None else exc_name(args[0])}")
@@ -258,6 +261,20 @@ class Kernel:
                     cancelled_at_first_checkpoint(args)
                     raise
                 run(args)
+                mid = kern.mid.get(cid)
+                if mid is not None and mid[0] == spec["id"]:
+                    # the scope around the block is cancelled while this callback is running (it has done its
+                    # work and is waiting for something): it ends with the cancellation
+                    kern.mid.pop(cid)
+                    mid[1].cancel()
+                    try:
+                        for _ in range(3):
+                            await checkpoint()
+                    except anyio.get_cancelled_exc_class():
+                        kern.tdlog.append(f"td- {spec['id']} cancelled")
+                        raise
+                    kern.tdlog.append("NOT-CANCELLED")
+                tail(args)
 
             if spec["id"] % 2:
                 # a plain function returning a non-coroutine awaitable: must be awaited just the same
@@ -268,6 +285,7 @@ class Kernel:
 
         def cb(*args: Any) -> None:
             run(args)
+            tail(args)
 
         if spec["id"] % 5 in (3, 4):
             return CallableObject(cb, falsy=spec["id"] % 5 == 4)
@@ -656,6 +674,8 @@ class Worker:
                     exitcmd = await self.frame(cid)
                     n0 = len(kern.tdlog)
                     assert exitcmd is not None
+                    if exitcmd.get("cancelAt") is not None and exitcmd["end"]["k"] != "cancelled":
+                        kern.mid[cid] = (exitcmd["cancelAt"], scope)
                     if exitcmd["end"]["k"] == "cancelled":
                         scope.cancel()           # delivered at the block's next checkpoint
                         await checkpoint()
